@@ -697,7 +697,7 @@ func (e *Engine) loadContracts() error {
 			}
 		}
 		for _, g := range cf.Ghosts {
-			t, err := e.parseGhostType(g.Type)
+			t, err := e.parseGhostType(g.Type, pkg)
 			if err != nil {
 				return fmt.Errorf("ghost var %s: %v", g.Name, err)
 			}
@@ -755,7 +755,7 @@ func isForeignName(name string) bool {
 	return strings.Contains(name, ".")
 }
 
-func (e *Engine) parseGhostType(s string) (types.Type, error) {
+func (e *Engine) parseGhostType(s string, pkg string) (types.Type, error) {
 	switch s {
 	case "int":
 		return types.Typ[types.Int], nil
@@ -769,6 +769,15 @@ func (e *Engine) parseGhostType(s string) (types.Type, error) {
 		return types.Typ[types.Bool], nil
 	case "string":
 		return types.Typ[types.String], nil
+	}
+	// any other type expression, resolved in the scope of the package the contract file belongs to
+	for _, sp := range e.pkgs {
+		if sp.Pkg.Name() != pkg {
+			continue
+		}
+		if tv, err := types.Eval(e.fset, sp.Pkg, token.NoPos, s); err == nil && tv.IsType() {
+			return tv.Type, nil
+		}
 	}
 	return nil, fmt.Errorf("unsupported ghost type %q", s)
 }
